@@ -464,7 +464,6 @@ ValsOf(K) == {Zero, One, MkV(TRUE, <<1>>)}
              \cup {Bound(k, d, neg) : k \in K, d \in {-1, 0, 1}, neg \in BOOLEAN}
 Vals == ValsOf(KS)
 PairVals == ValsOf(KPair)
-StreamVals == ValsOf(KStream)
 
 \* operand tuples of a class: every operand over the full set while the
 \* others range over the small set
@@ -474,17 +473,16 @@ ArgTuples(n, full, small) ==
   ELSE {<<v, w>> : v \in full, w \in small} \cup {<<v, w>> : v \in small, w \in full}
 
 LibRows(f) == {r \in Range(Table(f)) : r.lib}
-PlainItems(f, full, small) ==
-  UNION {{Item(r.n, a, <<>>) : a \in ArgTuples(Len(r.sig), full, small)}
-         : r \in {r \in LibRows(f) : ~r.blk}}
-Ops == PlainItems("op", Vals, PairVals)
+PlainRows(f) == {r \in LibRows(f) : ~r.blk}
+BlockRows == {r \in LibRows("inst") : r.blk}
+\* the operand tuples of one item of class r in the single-item states
+Args(r) == ArgTuples(Len(r.sig), Vals, PairVals)
 
 \* the stream alphabet: per class one item per operand profile (all operands
 \* 1, all operands 2^k + 1), in range for both address sizes
 ProfVals == {One} \cup {Bound(k, 1, FALSE) : k \in KStream}
 Uniform(r, v) == Item(r.n, [i \in 1..Len(r.sig) |-> v], <<>>)
-StreamPlain(f) == {x \in {Uniform(r, v) : r \in {r \in LibRows(f) : ~r.blk}, v \in ProfVals}
-                     : InRange(f, x, 4)}
+StreamPlain(f) == {x \in {Uniform(r, v) : r \in PlainRows(f), v \in ProfVals} : InRange(f, x, 4)}
 Op0(c) == Item(c, <<>>, <<>>)
 Op1(c, v) == Item(c, <<v>>, <<>>)
 \* 15 operations of 9 bytes: the length of the block needs two LEB128 bytes
@@ -493,16 +491,11 @@ StreamExprs ==
   {<<>>, <<Op1("DW_OP_lit", One)>>, <<Op1("DW_OP_addr", One)>>, LongExpr}
   \cup {<<Op1("DW_OP_const2s", v)>> : v \in ProfVals}
   \cup {<<Op0("DW_OP_dup"), Item("DW_OP_bregx", <<v, v>>, <<>>), Op0("DW_OP_plus")>> : v \in ProfVals}
-BlockRows == {r \in LibRows("inst") : r.blk}
-BlockInsts(rows, exprs, regs) ==
-  UNION {{Item(r.n, a, e) : a \in ArgTuples(Len(r.sig), regs, regs), e \in exprs} : r \in rows}
-\* every operation with every boundary operand nested in a block of the
-\* first block class; the small expressions in all block classes
-Insts == PlainItems("inst", Vals, PairVals)
-         \cup BlockInsts({CfaRow["DW_CFA_def_cfa_expression"]}, {<<o>> : o \in Ops}, {Zero})
-         \cup BlockInsts(BlockRows, StreamExprs, {Zero, Bound(7, 0, FALSE), MkV(TRUE, <<1>>)})
-StreamInsts == StreamPlain("inst") \cup BlockInsts(BlockRows, StreamExprs, {One})
-Items(f) == IF f = "op" THEN Ops ELSE Insts
+BlockInsts(exprs, regs) ==
+  UNION {{Item(r.n, a, e) : a \in ArgTuples(Len(r.sig), regs, regs), e \in exprs} : r \in BlockRows}
+\* the small expressions in all block classes, register operand 0, 2^7, -1
+SmallBlockInsts == BlockInsts(StreamExprs, {Zero, Bound(7, 0, FALSE), MkV(TRUE, <<1>>)})
+StreamInsts == StreamPlain("inst") \cup BlockInsts(StreamExprs, {One})
 
 Orders == {"little", "big"}
 PtrSizes == {4, 8}
@@ -549,12 +542,27 @@ MakeConst(v) ==
   /\ kind' = "const" /\ val' = v
   /\ UNCHANGED <<fam, bo, ps, xs, raw>>
 
+\* Guards first: TLC enumerates the bound variables of \E before it
+\* evaluates the body.
 Next ==
-  \/ \E f \in {"op", "inst"}, order \in Orders, psz \in PtrSizes :
-       \/ \E x \in Items(f) : EncodeOne(f, x, order, psz)
-       \/ \E b \in 0..255, pad \in Pads : DecodeRaw(f, <<b>> \o pad, order, psz)
-  \/ \E x \in StreamInsts : AppendInst(x)
-  \/ \E v \in ConstVals : MakeConst(v)
+  \/ /\ kind = "idle"
+     /\ \E order \in Orders, psz \in PtrSizes :
+          \* one item of every modelled class, operands over the boundary set
+          \/ \E f \in {"op", "inst"} : \E r \in PlainRows(f) : \E a \in Args(r) :
+               EncodeOne(f, Item(r.n, a, <<>>), order, psz)
+          \* every operation with every boundary operand, nested in a block
+          \/ \E r \in PlainRows("op") : \E a \in Args(r) :
+               EncodeOne("inst", Item("DW_CFA_def_cfa_expression", <<>>, <<Item(r.n, a, <<>>)>>),
+                         order, psz)
+          \/ \E x \in SmallBlockInsts : EncodeOne("inst", x, order, psz)
+          \/ \E f \in {"op", "inst"}, b \in 0..255, pad \in Pads :
+               DecodeRaw(f, <<b>> \o pad, order, psz)
+  \/ /\ kind = "idle"
+     /\ \E v \in ConstVals : MakeConst(v)
+  \/ /\ kind = "enc" /\ fam = "inst" /\ Len(xs) < MaxSeq
+     /\ <<bo, ps>> \in StreamConfigs
+     /\ xs[1] \in StreamInsts
+     /\ \E x \in StreamInsts : AppendInst(x)
 
 Spec == Init /\ [][Next]_vars
 
